@@ -43,6 +43,7 @@ type gatePacer struct {
 	mu         sync.Mutex
 	pending    *paceCall
 	n          int
+	auto       int // the first auto calls are answered (0,false) at once: a burst of ticks the controller does not pace
 	concurrent bool // two Pace calls overlapped
 	records    []paceRecord
 }
@@ -54,6 +55,11 @@ func (g *gatePacer) Pace(elapsed time.Duration, hits uint64) (time.Duration, boo
 	}
 	c := &paceCall{Index: g.n, Elapsed: elapsed, Hits: hits, decide: make(chan paceDecision)}
 	g.n++
+	if c.Index < g.auto {
+		g.records = append(g.records, paceRecord{c.Index, elapsed, hits, 0, false})
+		g.mu.Unlock()
+		return 0, false
+	}
 	g.pending = c
 	g.mu.Unlock()
 	d := <-c.decide
